@@ -171,8 +171,9 @@ RemovesExactlyExpired == NothingYoungerRemoved /\ CompletedScanRemovedAllOlder /
 ZeroNeverDeletes == period = 0 => (store = ub /\ pc \in {"idle", "stopped"} /\ mustGo = [m \in Mailbox |-> {}])
 (* after a shutdown request the scan finishes at most the mailbox at hand  *)
 (* and may return at once                                                  *)
+LateBound == late <= 1
 StopsPromptly ==
-    /\ late <= 1
+    /\ LateBound
     /\ (pc = "scanning" /\ cancelled) => ENABLED ScanEnd
     /\ (loop /\ cancelled /\ pc \in {"waiting", "sleeping", "aborted"}) => ENABLED LoopStop
 =============================================================================
